@@ -67,9 +67,16 @@ package generator
 //@   ensures forall y string :: y != x ==> p.m[y] == old(p.m[y]) && inDom(p.m, y) == old(inDom(p.m, y))
 //@   modifies contents(p.m)
 
+// Replace is ONE pass of a strings.Replacer built from every (marker, patch) pair of the map over the content: every
+// occurrence of every marker is substituted simultaneously (the library's semantics; its result is not modelled further).
 //@ func (p *insertionPointReplacer) Replace(content string) string
-//@   trusted
+//@   requires p != nil
 //@   pure
+//@   proves ncalls("strings.NewReplacer") == 1
+//@   proves forall k string :: old(inDom(p.m, k)) ==> exists j int :: 0 <= j && 2*j+1 < len(callarg("strings.NewReplacer", 0)) && callarg("strings.NewReplacer", 0)[2*j] == k && callarg("strings.NewReplacer", 0)[2*j+1] == old(p.m[k])
+//@   proves ncalls("strings.NewReplacer(oldnews...).Replace") == 1 && callarg("strings.NewReplacer(oldnews...).Replace", 0) == content && result == callret("strings.NewReplacer(oldnews...).Replace", 0)
+//@   loop 1 invariant ncalls("strings.NewReplacer") == 0 && len(oldnews) % 2 == 0
+//@   loop 1 invariant forall k string :: $visited[k] ==> exists j int :: 0 <= j && 2*j+1 < len(oldnews) && oldnews[2*j] == k && oldnews[2*j+1] == p.m[k]
 
 //@ func (fm *FileManager) BuildResponse() *plugin.Response
 //@   requires wfFM(fm)
